@@ -136,6 +136,23 @@ CHECKS['C05'] = _mc('balancer', 'DESIGN.md 5/C05', _BAL_TECH,
   'LbBase.tla; on the real balancers membership is compared with the reference set at every quiescent point and by a saturating probe, with '
   'notifications landing while the initial list is loading.', _BAL_NOTE)
 
+CHECKS['C16'] = _mc('share', 'DESIGN.md 5/C16',
+  'TLC exhaustive check of code-shaped SingletonPool.tla (ref count, _Get branches with the yield at Open().wait(), failures at any point) and '
+  'RefCounted.tla (ref-counted shared sink + sharing-key cache); TLC behaviours replayed on the real classes (projection compare); '
+  'real-code histories validated by TLC against ShareAbsTrace',
+  'All Open/Close/request/failure histories for 2-3 holders (words up to length 4-7, exhaustively enumerated, plus random longer ones with calls '
+  'landing mid-cascade) are executed on the real SingletonPoolSink / RefCountedSink / SharedSinkProvider over counting mock connections and judged '
+  'by TLC: single connection, shared, replaced after failure, first-open, last-close, surplus closes, same key same sink.',
+  'Trusted: mock connections below the pool (Idle until their open completes); C16.lastClose also expects the close by the next quiescent point.')
+CHECKS['C17'] = _mc('async_', 'DESIGN.md 5/C17',
+  'TLC exhaustive check of code-shaped AsyncImpl.tla (rawlink callback queue, closures of WhenAll/WhenAny/Unwrap/ContinueWith/Map); TLC behaviours '
+  'replayed on the real AsyncResult; exhaustive enumeration of inputs x outcomes x completion orders x pre-completed subsets on the real code, '
+  'validated by TLC against AsyncAbsTrace',
+  'Exhaustive within n <= 4 (quick) / 5-6 (thorough) inputs: every outcome assignment, completion order, pre-completed subset and batching of '
+  'completions between quiescent points is executed on the real combinators and the observation (ready, successful, exception, value) after each '
+  'step is judged by TLC; the model is checked for n <= 6.',
+  'Trusted: gevent AsyncResult semantics as observed on the virtual loop; a result with .exception set counts as failed.')
+
 PENDING = {}
 
 ALL = ['C%02d' % i for i in range(1, 21)]
